@@ -299,3 +299,41 @@ example :
     orderOk false (.cons (.assign 2 .other) (.cons (.assign 1 (.selfCompile 2)) (.cons (.retRun 1) .nil))) = false ∧
     orderOk false (.cons (.tryCatch [1] (.cons (.assign 1 (.selfCompile 0)) .nil) (.cons (.run 1) .nil)) (.cons (.retRun 1) .nil)) = false ∧
     orderOk false (.cons (.assign 1 (.selfCompile 0)) (.cons (.retRun 1) .nil)) = true := by decide
+
+/-! ## the raise wrapper (phase 3) leaves pure Python alone -/
+
+open RaiseWrap in
+mutual
+/-- `_SubprocChainRaiseWrapper` never touches a tree without a subprocess helper call below it: a pure-Python `a or b`,
+`if a and b:` — at any depth, inside or outside another and/or, whatever commands stand elsewhere in the input — comes back
+unchanged (in particular it is never wrapped in `subproc_check_boolop`) -/
+theorem C02_raise_wrapper_pure : ∀ (t : T) (inside : Bool), hasHelper t = false → visit inside t = t
+  | .helper _ _, _, h => by simp [hasHelper] at h
+  | .boolop vs, inside, h => by
+    have hv := C02_raise_wrapper_pureL vs true (by simpa [hasHelper] using h)
+    have hh : hasHelperL vs = false := by simpa [hasHelper] using h
+    simp only [visit, hv, hh]
+    split <;> simp
+  | .wrapped t, inside, h => by
+    simp only [visit, C02_raise_wrapper_pure t inside (by simpa [hasHelper] using h)]
+  | .stmtVal t, inside, h => by
+    have ht : hasHelper t = false := by simpa [hasHelper] using h
+    simp only [visit, C02_raise_wrapper_pure t inside ht]
+    cases t with
+    | helper _ _ => simp [hasHelper] at ht
+    | _ => simp [isWrapped, isRaisingHelper]
+  | .other cs, inside, h => by
+    simp only [visit, C02_raise_wrapper_pureL cs inside (by simpa [hasHelper] using h)]
+theorem C02_raise_wrapper_pureL : ∀ (ts : Ts) (inside : Bool), hasHelperL ts = false → visitL inside ts = ts
+  | .nil, _, _ => by simp [visitL]
+  | .cons t ts, inside, h => by
+    simp only [hasHelperL, Bool.or_eq_false_iff] at h
+    simp only [visitL, C02_raise_wrapper_pure t inside h.1, C02_raise_wrapper_pureL ts inside h.2]
+end
+
+open RaiseWrap in
+/-- non-vacuity: a chain over a command IS wrapped (once, at the outermost and/or), a bare raising command statement too -/
+example : visit false (.boolop (.cons (.helper true .nil) (.cons (.boolop (.cons (.other .nil) .nil)) .nil))) =
+      .wrapped (.boolop (.cons (.helper true .nil) (.cons (.boolop (.cons (.other .nil) .nil)) .nil))) ∧
+    visit false (.stmtVal (.helper true .nil)) = .stmtVal (.wrapped (.helper true .nil)) ∧
+    visit false (.stmtVal (.helper false .nil)) = .stmtVal (.helper false .nil) := ⟨by rfl, by rfl, by rfl⟩
